@@ -105,6 +105,6 @@ UNIT = {
     'assumptions': ['BOUNDED: unpacked nodes with at most %d entries and indexes below %d; multi-terminal and EV(long) layouts; not counted as proved' % (NB, NB + 1)],
     'jobs': [
         job('codec_roundtrip_mt', ['C02', 'C12', 'C01']),
-        job('codec_roundtrip_ev', ['C02', 'C12', 'C01'], defines=['CB_EV']),
+        job('codec_roundtrip_ev', ['C02', 'C12', 'C01'], defines=['CB_EV'], tier='thorough', timeout=7200),     # > 15 min under load: thorough tier only
     ],
 }
